@@ -42,6 +42,18 @@ ALLOWED_AXIOMS = {
 }
 
 
+LEVELS = ['exploration', 'fault_enumeration', 'model_checking', 'proof', 'translation_validation', 'other']
+
+
+def norm_level(x):
+    if x in LEVELS:
+        return x
+    for l in LEVELS:
+        if str(x).startswith(l):
+            return l
+    return 'other'
+
+
 def log(*a):
     print(*a, file=sys.stderr, flush=True)
 
@@ -530,7 +542,7 @@ def run_check(spec, tier, seed, replay=None):
         'ocaml/driver.ml (text <-> inductive integers), lib/vcheck.py, harness generators/canonicalisers',
     ] + spec.get('trusted', [])
     ev = {
-        'property_id': prop, 'tier': tier, 'seed': seed, 'level': spec.get('level', 'proof'),
+        'property_id': prop, 'tier': tier, 'seed': seed, 'level': norm_level(spec.get('level', 'proof')),
         'coverage': {}, 'assumptions': spec.get('assumptions', []), 'wall_s': 0.0, 'violations': 0,
     }
     problems = []           # broken obligations / ties (strings)
